@@ -24,6 +24,26 @@ func ParseTLA(s string) (interface{}, error) {
 	return v, nil
 }
 
+// ParseTLAPrefix parses the TLA+ value at the start of s and ignores what follows it.
+func ParseTLAPrefix(s string) (interface{}, error) {
+	p := &tlaParser{s: s}
+	return p.value()
+}
+
+// FindPrinted returns the value of a tuple TLC printed with PrintT(<<tag, ...>>), searched by its string tag.
+func FindPrinted(output, tag string) (interface{}, bool) {
+	i := strings.LastIndex(output, "\""+tag+"\"")
+	if i < 0 {
+		return nil, false
+	}
+	j := strings.LastIndex(output[:i], "<<")
+	if j < 0 {
+		return nil, false
+	}
+	v, err := ParseTLAPrefix(output[j:])
+	return v, err == nil
+}
+
 func tailN(s string, n int) string {
 	if len(s) > n {
 		return s[:n]
